@@ -137,11 +137,58 @@ class Program:
                     self.functions[f.qualname] = f
             for f in m.functions.values():
                 self.functions[f.qualname] = f
+        self._alias: dict[str, str] = {}
+        self._apply_role_aliases()
         for c in self.classes.values():
             c.bases = [b for b in (self._resolve_base(c.module, b) for b in c.node.bases) if b]
             c.decorators = [self.resolve_expr_name(c.module, d.func if isinstance(d, ast.Call) else d) for d in c.node.decorator_list]
         for f in self.functions.values():
             f.decorators = [self.resolve_expr_name(f.module, d.func if isinstance(d, ast.Call) else d) for d in f.node.decorator_list]
+
+    # ------------------------------------------------------------------ private helpers by role
+    def _apply_role_aliases(self):
+        """Rules name a few *private* helpers.  A helper that is gone under its usual name is looked for by its role --
+        the one private, module-level function of the same module with the same number of parameters that the named public
+        function calls -- and, when exactly one fits, known under the usual name from then on (its refs resolve to that name,
+        obligation keys stay stable).  Nothing is guessed when zero or several candidates fit: the anchor stays missing."""
+        for canon, (callers, npar) in ROLE_ANCHORS.items():
+            if canon in self.functions:
+                continue
+            modname = canon.rpartition(".")[0]
+            mod = self.modules.get(modname)
+            if mod is None:
+                continue
+            cands = set()
+            for cq in callers:
+                cf = self.functions.get(cq)
+                if cf is None:
+                    continue
+                for n in ast.walk(cf.node):
+                    if not isinstance(n, ast.Call):
+                        continue
+                    q = self.resolve_expr_name(cf.module, n.func)
+                    g = self.functions.get(q or "")
+                    if g is None or g.cls is not None or g.module is not mod or not g.name.startswith("_") or g.name.startswith("__"):
+                        continue
+                    if q in ROLE_ANCHORS or q in self._alias:
+                        continue
+                    a = g.node.args
+                    if npar is not None and len(a.posonlyargs + a.args + a.kwonlyargs) != npar:
+                        continue
+                    if npar is None and a.vararg is None:
+                        continue
+                    must = ROLE_MUST_CALL.get(canon)
+                    if must and not any(isinstance(x, ast.Call) and self.resolve_expr_name(g.module, x.func) == must for x in ast.walk(g.node)):
+                        continue
+                    cands.add(q)
+            if len(cands) != 1:
+                continue
+            real = cands.pop()
+            fi = self.functions.pop(real)
+            self._alias[real] = canon
+            fi.qualname = canon
+            self.functions[canon] = fi
+            mod.functions[canon.rpartition(".")[2]] = fi
 
     # ------------------------------------------------------------------ loading
     def _load(self):
@@ -272,7 +319,7 @@ class Program:
                 return dotted
             head, tail = rest[0], rest[1:]
             if head in mod.functions or head in mod.classes:
-                return dotted
+                return getattr(self, "_alias", {}).get(dotted, dotted)
             if head in mod.assigns:
                 v = mod.assigns[head]
                 # plain alias X = a.b.c  (no call, no subscript)
@@ -502,6 +549,20 @@ class Program:
 
 
 MEMO_DECORATORS = {"functools.cache", "functools.lru_cache"}
+
+# where two private callees have the same shape: the one meant is the one that itself calls ...
+ROLE_MUST_CALL = {"typelib.py.inspection._hints_from_signature": "typelib.py.inspection.signature"}
+
+# private helpers the rules name -> (the public functions that call them, number of named parameters or None for *args)
+ROLE_ANCHORS = {
+    "typelib.binding._get_binding": (["typelib.binding.bind", "typelib.binding.wrap"], 1),
+    "typelib.graph._level": (["typelib.graph.get_type_graph"], 1),
+    "typelib.serdes._make_fields_iterator": (["typelib.serdes.get_items_iter"], 1),
+    "typelib.serdes._is_iterable_of_pairs": (["typelib.serdes.iteritems"], 1),
+    "typelib.py.inspection._hints_from_signature": (["typelib.py.inspection.get_type_hints"], 1),
+    "typelib.py.refs._resolve_module_name": (["typelib.py.refs.forwardref"], 2),
+    "typelib.py.inspection._normalize_typevars": (["typelib.py.inspection.args"], None),
+}
 
 
 def _attr_chain(e: ast.expr) -> list[str] | None:
